@@ -127,6 +127,20 @@ def overlapping_reference_shapes():
     return out
 
 
+def any_typed_consumer_shapes():
+    """every output object the engine generates for a plugin step and for a loop step, referred to where a value of any
+    type is taken (wait_for of another step, the workflow's output tree): all of these are well-formed workflows"""
+    out = []
+    a = {'kind': 'plugin', 'pstep': 'work', 'fields': {'input': tmap({'id': lit('a')})}}
+    for r in ('steps.a.crashed.error', 'steps.a.deploy_failed.error', 'steps.a.closed.result', 'steps.a.disabled.output',
+              'steps.a.enabling.resolved', 'steps.a.starting.started', 'steps.a.outputs.success', 'steps.a.outputs.error',
+              'steps.a.crashed', 'steps.a.deploy_failed', 'steps.a.closed', 'steps.a.disabled'):
+        b = {'kind': 'plugin', 'pstep': 'work', 'fields': {'input': tmap({'id': lit('b')}), 'wait_for': ref(r)}}
+        out.append({'steps': {'a': a, 'b': b},
+                    'outputs': {'success': tmap({'b': ref('steps.b.outputs.success.tok')}), 'seen': tmap({'v': ref(r)})}})
+    return out
+
+
 def prepare_oracle(ctx, wfs, timeout_s=900):
     """Prepare.tla over a batch: returns list of {'accepted': bool, 'nodes': set, 'edges': set} (None on failure) and stats"""
     d = os.path.join(ctx.work, 'prep-%d' % len(os.listdir(ctx.work)))
